@@ -62,6 +62,16 @@ def run(ctx):
             toks = lang.tree_tokens(tree, ctx.rng)
             route = ctx.rng.choice(['parse', 'parse', 'parse', 'enforce', 'load'])
             cases.append(pc.record_text(toks, lang.render(toks, ctx.rng, wide=True), route, 'c01'))
+    # every kind of leaf check (not only role:), and the same expression spelled with upper-case attribute /
+    # rule / placeholder names right after the lower-case one: a different rule, decided on its own keys
+    for i in range(120 if q else 3000):
+        off = ctx.rng.randrange(6)
+        lo, up = lang.LeafEnv(lang.LeafEnv.ALL, off), lang.LeafEnv(lang.LeafEnv.ALL, off, upper=True)
+        tree = lang.random_tree(ctx.rng, ctx.rng.choice([2, 3, 5, 8]), ctx.rng.randint(1, 5))
+        toks = lang.tree_tokens(tree, ctx.rng)
+        route = ctx.rng.choice(['parse', 'parse', 'enforce', 'load'])
+        for env in ((lo, up) if ctx.rng.random() < 0.5 else (up, lo)):
+            cases.append(pc.record_text(toks, lang.render(toks, ctx.rng, leaf=env.text, wide=True), route, 'c01', lenv=env))
     # the same parenthesised group several times in one rule
     for i in range(250 if q else 4000):
         toks = lang.repeated_group_tokens(ctx.rng)
